@@ -129,6 +129,7 @@ EXPORT errno_t _wcrtomb_s_chk(size_t *restrict retvalp, char *restrict dest,
 {
     size_t len;
     errno_t rc;
+    char buf[MB_LEN_MAX]; /* libc stores up to MB_CUR_MAX bytes */
 
     CHK_SRC_NULL("wcrtomb_s", retvalp)
     CHK_SRC_NULL("wcrtomb_s", ps)
@@ -150,10 +151,11 @@ EXPORT errno_t _wcrtomb_s_chk(size_t *restrict retvalp, char *restrict dest,
         }
     }
 
-    len = *retvalp = wcrtomb(dest, wc, ps);
+    len = *retvalp = wcrtomb(dest ? buf : NULL, wc, ps);
 
     if (likely(len < dmax)) {
         if (dest) {
+            memcpy(dest, buf, len);
 #ifdef SAFECLIB_STR_NULL_SLACK
             memset(&dest[len], 0, dmax - len);
 #else
